@@ -68,17 +68,34 @@ func hasUnknownDeep(ss pipeline.Steps) bool {
 
 // c06nilDims gives every map-form matrix a further dimension whose value list is nil (not something a parsed
 // document contains; an API user can build it)
-func c06nilDims(ss pipeline.Steps) {
+func c06nilDims(ss pipeline.Steps, shadow bool) {
 	for _, s := range ss {
 		switch t := s.(type) {
 		case *pipeline.CommandStep:
 			if t.Matrix != nil && t.Matrix.Setup != nil {
 				if _, anonymous := t.Matrix.Setup[""]; !anonymous || len(t.Matrix.Setup) > 1 {
 					t.Matrix.Setup["zz_nil_dimension"] = nil
+					// ... and unknown fields that carry the name of a typed field (the typed field is what counts;
+					// JSON only - yaml.v3 refuses such a struct)
+					if !shadow {
+						continue
+					}
+					if t.Matrix.RemainingFields == nil {
+						t.Matrix.RemainingFields = map[string]any{}
+					}
+					t.Matrix.RemainingFields["setup"] = "shadowed by the typed field"
+					for _, ad := range t.Matrix.Adjustments {
+						if ad != nil {
+							if ad.RemainingFields == nil {
+								ad.RemainingFields = map[string]any{}
+							}
+							ad.RemainingFields["with"] = "shadowed by the typed field"
+						}
+					}
 				}
 			}
 		case *pipeline.GroupStep:
-			c06nilDims(t.Steps)
+			c06nilDims(t.Steps, shadow)
 		}
 	}
 }
@@ -211,13 +228,13 @@ func init() {
 			// (one case in four: matrices as an API user may build them, with a dimension whose value list is nil)
 			apiBuilt := i%4 == 2
 			if apiBuilt {
-				c06nilDims(p.Steps)
+				c06nilDims(p.Steps, true)
 			}
 			snapBefore := c19snapshot(p.Steps)
 			var before []byte
 			if p0, err0 := pipeline.Parse(strings.NewReader(text)); err0 == nil || warning.Is(err0) {
 				if apiBuilt {
-					c06nilDims(p0.Steps)
+					c06nilDims(p0.Steps, true)
 				}
 				before, _ = json.Marshal(p0.Steps)
 			}
